@@ -7,6 +7,10 @@ TEXT = {
   "level": "Machine-checked proof (Lean 4): with the guard flags regenerated from the current source, no byte string and no BER tree makes the decode model return `panic`; each guard has a kernel-checked witness tree that panics if the guard is dropped. Tied to the source by flags + inventory + differential run over structured mutations and random bytes (panic = oracle failure).",
   "design": "5 C02", "technique": "Lean 4 totality proof over all trees + guard-flag extraction + mutation-based correspondence",
   "note": "Trusted: as C01. Stack exhaustion in the third-party recursive reader is outside the model (C07)."},
+ "C14": {
+  "level": "Machine-checked proof (Lean 4): for every control value of the nine exported types (page sizes < 2^32, any cookie, grace/expire < 2^63, error 0..8, any int64 VChu expiry via a proved FormatInt/ParseInt round trip, any non-typed OID, both criticalities) gldap's Encode() equals the RFC encoding, gldap's decodeControl returns the same control (tree and wire level, lists in order), and an independent strict RFC reader recovers the same fields; for ALL uint arguments the Behera constructor yields at most one of grace/expire/error and an error in -1..8 (with a kernel-checked counterexample for the pre-fix code). Tied to the source by regenerated OIDs/flags, inventory of the Encode/constructor functions, byte-exact differential run of Encode() vs the model, and decode-back oracles through gldap and go-ldap.",
+  "design": "5 C14", "technique": "Lean 4 proof (encode/decode round trips, constructor arithmetic) + byte-exact differential correspondence",
+  "note": "Trusted: as C01; go-ldap DecodeControl used as second reader (nil-deref on valueless Behera noted)."},
 }
 NOT_APPLICABLE = {p: "check not built yet in this round (planned, see DESIGN.md section 5)" for p in
                   ["C%02d" % i for i in range(1, 21)]}
